@@ -296,6 +296,50 @@ pub fn run(ctx: &mut Ctx) -> (&'static str, String, bool) {
         }
         ctx.merge(p);
     }
+    // ---- IS_VER: the 8-byte version field holds text that the library parses into a number, a letter and a revision and
+    //      prints again on encoding. The printed form can be longer than what was read (".5A12345" prints as
+    //      "0.5A12345"): whatever was decoded must still encode to a well-formed 20-byte frame or be refused ----------
+    {
+        let mut p = Part::new();
+        const A: [u8; 6] = [b'.', b'0', b'5', b'9', b'A', b'f'];
+        let n = 6u64.pow(8);
+        let stride = ctx.tier.pick(97u64, 7u64);
+        let mut i = ctx.seed % stride;
+        while i < n {
+            let mut idx = i;
+            let mut v = [0u8; 8];
+            for b in v.iter_mut() {
+                *b = A[(idx % 6) as usize];
+                idx /= 6;
+            }
+            i += stride;
+            for compressed in MODES {
+                let mut f = vec![if compressed { 5u8 } else { 20 }, 2, 1, 0];
+                f.extend_from_slice(&v);
+                f.extend_from_slice(b"S3\0\0\0\0");
+                f.extend_from_slice(&[9, 0]);
+                let Dec::Packet(pk, _) = real_decode(&f, compressed) else { continue };
+                p.evaluations += 1;
+                p.distinct(&(compressed, v));
+                let replay = json!({"kind": "VER", "mode": mode_name(compressed), "origin": "decoded", "frame": hex(&f)});
+                match real_encode(&pk, compressed) {
+                    Enc::Ok(out) => {
+                        well_formed(c, "VER", &out, compressed, None, "decoded", &replay, &mut p);
+                        if out.len() != 20 {
+                            p.violation("C03/VER/decoded/fixed-size-kind-has-other-size".to_string(), format!("VER {}: version text {:?} decodes, and re-encodes to {} bytes", mode_name(compressed), String::from_utf8_lossy(&v), out.len()), replay);
+                        }
+                    },
+                    Enc::Err(_) => p.count("decoded_refused_with_error", 1),
+                    Enc::Panic(pn) => p.violation(
+                        format!("C03/VER/decoded/encoder-aborts/{}", panic_site(&pn)),
+                        format!("VER {}: a packet obtained by decoding version text {:?} makes the encoder panic: {pn}", mode_name(compressed), String::from_utf8_lossy(&v)),
+                        replay,
+                    ),
+                }
+            }
+        }
+        ctx.merge(p);
+    }
     // ---- typed fields wider than their wire slot: a `char` that goes into one byte (ISI prefix, SCH key). Whatever the
     //      character, an emitted frame is well formed and of the kind's fixed size - or the packet is refused -----------
     {
